@@ -25,6 +25,10 @@ type pool struct {
 	hasPeerCh chan struct{}
 
 	cleanupThreshold int
+
+	// cooldownUntil is the time the current cool-down of a peer ends: queue items of an earlier
+	// cool-down of a peer that was removed and added again in between must not end it early
+	cooldownUntil map[peer.ID]time.Time
 }
 
 type status int
@@ -40,6 +44,7 @@ func newPool(peerCooldownTime time.Duration) *pool {
 	p := &pool{
 		peersList:        make([]peer.ID, 0),
 		statuses:         make(map[peer.ID]status),
+		cooldownUntil:    make(map[peer.ID]time.Time),
 		hasPeerCh:        make(chan struct{}),
 		cleanupThreshold: defaultCleanupThreshold,
 	}
@@ -131,6 +136,7 @@ func (p *pool) remove(peers ...peer.ID) {
 	for _, peerID := range peers {
 		if status, ok := p.statuses[peerID]; ok && status != removed {
 			p.statuses[peerID] = removed
+			delete(p.cooldownUntil, peerID)
 			if status == active {
 				p.activeCount--
 			}
@@ -185,6 +191,7 @@ func (p *pool) putOnCooldown(peerID peer.ID) {
 	defer p.m.Unlock()
 
 	if status, ok := p.statuses[peerID]; ok && status == active {
+		p.cooldownUntil[peerID] = p.cooldown.clock.Now().Add(p.cooldown.ttl)
 		verifhook.PointKV("peers.lock:pool-held-want-queue", p.cooldown)
 		p.cooldown.push(peerID)
 
@@ -203,6 +210,11 @@ func (p *pool) afterCooldown(peerID peer.ID) {
 	if status, ok := p.statuses[peerID]; !ok || status != cooldown {
 		return
 	}
+	// stale item of an earlier cool-down: the current one has not elapsed yet
+	if p.cooldown.clock.Now().Before(p.cooldownUntil[peerID]) {
+		return
+	}
+	delete(p.cooldownUntil, peerID)
 
 	p.statuses[peerID] = active
 	p.activeCount++
